@@ -34,6 +34,10 @@ class Tape:
 
     def coin(self, p: float, label: str = "") -> bool:
         """True with probability p.  Encoded as an integer in [0,1000) so that 0 == False."""
+        if 0 < p < 0.005:  # rare events: a finer grid (one in a million), same convention
+            t = int(round(p * 1_000_000))
+            v = self.choose(1_000_000, label)
+            return (999_999 - v) < t
         t = int(round(p * 1000))
         v = self.choose(1000, label)
         # v < t  <=>  True ; replaying 0 must mean "False": map so that recorded 0 => False
